@@ -12,7 +12,7 @@ MANIFEST = {
     'text': 'Every sequence of <= 5 (thorough 6) tokens over a 16-token alphabet, every string of <= 4 characters over 20 characters, '
             'every single token deletion/insertion/replacement of every valid formula with <= 2 operators and every numeral spelling '
             'over three digits is given to the real parser: it must return or raise FormulaError (totality), agree with a reference '
-            'recogniser on accept/reject, and export the reference rendering for accepted input. A juxtaposition space puts 14 complete operand units side by side inside 10 contexts.',
+            'recogniser on accept/reject, and export the reference rendering for accepted input. A juxtaposition space puts 14 complete operand units side by side inside 10 contexts. Further spaces: every sequence of <= 4 (5) tokens over 14 that contains the range operator as a token of its own (rejected when an operand is missing on either side); every text without leading = made of 12 prefixes and <= 3 further characters (only a lone error literal is a formula); a defined name spelled like a function called in the same formula, in both orders; special reference tokens next to ordinary references under every reference operator.',
     'note': 'Trusted: ref/grammar.py recogniser. Sequences whose tokens merge lexically, x%%, parenthesised operands next to a space, '
             'and top-level unions are judged for totality only.',
 }
@@ -297,7 +297,9 @@ def run_num(case):
 # ---- reference forms beyond A1: spill anchors, INDIRECT, sheet-qualified errors, in every letter case
 SPECIAL = ['A1#', 'ANCHORARRAY(A1)', 'ANCHORARRAY(A1:B2)', '_xlfn.ANCHORARRAY(A1)', 'ANCHORARRAY(S!A1)', 'INDIRECT("A1")', 'INDIRECT("A1:B2")', 'INDIRECT("")',
            'S!#REF!', "'My S'!#REF!", '#REF!#', 'A1:B2#', 'A:A#', '1:1#', 'S!A1#', 'R[1]C[1]#', 'R1C1#', 'ANCHORARRAY()', 'ANCHORARRAY(1)', 'A1##', '#N/A#',
-           '#NULL!', '#DIV/0!', '#VALUE!', '#NUM!', '#NAME?', '#GETTING_DATA', '#SPILL!', '#CALC!', '#FIELD!', '#N/A!', '#n/a', '#Ref!']
+           '#NULL!', '#DIV/0!', '#VALUE!', '#NUM!', '#NAME?', '#GETTING_DATA', '#SPILL!', '#CALC!', '#FIELD!', '#N/A!', '#n/a', '#Ref!',
+           # relative and R1C1 references parsed without a host cell
+           'R[-5]C[1]', 'R[1]C[1]:R[2]C[2]', 'R[1]:R[2]', 'C[1]:C[2]', 'R[-1]C[-1]', 'R1C1', 'R1C1:R2C2', 'R1:R2', 'C1:C2', 'RC', 'R[0]C[0]', 'S!R[1]C[1]', 'MYNAME', 'S!MYNAME']
 
 
 def special_cases(tier):
@@ -309,7 +311,8 @@ def run_special(case):
     _, i = case
     install_probe()
     fails, oc, n = [], {}, 0
-    for tpl in ('%s', '%s+1', 'F(%s)', '-%s', '(%s)', '{%s}', 'F(1,%s,)', '%s%%', '1+%s*2', '%s %s', '%s:%s', '(%s,%s)'):
+    for tpl in ('%s', '%s+1', 'F(%s)', '-%s', '(%s)', '{%s}', 'F(1,%s,)', '%s%%', '1+%s*2', '%s %s', '%s:%s', '(%s,%s)',
+                '%s A1', 'A1 %s', '%s:A1', 'A1:%s', '(%s,A1)', 'F(%s A1:B2)', 'F((A1,%s))', '%s B:B', '1:1 %s'):
         for t in (SPECIAL[i], SPECIAL[i].lower(), SPECIAL[i].swapcase()):
             text = '=' + tpl.replace('%s', t).replace('%%', '%')
             st, b = parse(text)
@@ -346,8 +349,101 @@ def run_juxta(case):
     return result(n, list(oc), fails)
 
 
+# ---- the range operator written as a token of its own: it needs an operand on both sides
+TOKC = ['A1', '1', '"s"', '(', ')', 'F(', ',', '+', '-', ':', '{', '}', '%', '#N/A']
+
+
+def colon_cases(tier):
+    for L in range(1, 5 if tier == 'quick' else 6):
+        for i in range(len(TOKC)):
+            for sp in ('', ' '):
+                yield ['colon', L, i, sp]
+
+
+def run_colon(case):
+    _, L, i, sp = case
+    install_probe()
+    fails, oc, n = [], {}, 0
+    for rest in itertools.product(TOKC, repeat=L - 1):
+        toks = [TOKC[i]] + list(rest)
+        if ':' not in toks:
+            continue
+        bad = any(t == ':' and (p == 0 or p == len(toks) - 1 or toks[p - 1] not in OPERANDISH_END or toks[p + 1] not in OPERANDISH_START) for p, t in enumerate(toks))
+        text = '=' + sp.join(toks)
+        st, b = parse(text)
+        n += 1
+        k = '%s/%s' % ('INVALID' if bad else 'UNSPEC', st)
+        oc[k] = oc.get(k, 0) + 1
+        if st.startswith('ESC'):
+            fails.append(Fail('escape', got=st, exp='FormulaError or a formula', text=text, src='colon', feat='colon'))
+        elif bad and st == 'VALID':
+            fails.append(Fail('accepted-invalid', got=b[-1].get_expr, exp='rejected', text=text, src='colon', feat='colon-without-operand'))
+    return result(n, list(oc), fails[:50])
+
+
+# ---- text that does not start with '=': only a lone error literal is read as a formula
+NOEQ_PREFIX = ['#REF!', '#N/A', '#DIV/0!', '#ref!', "'S'!#REF!", '1', 'A1', 'SUM(1)', '"s"', '', ' #NUM!', 'TRUE']
+NOEQ_CHARS = CHARS + [' ', '=', 'x', '#']
+
+
+def noeq_cases(tier):
+    for i in range(len(NOEQ_PREFIX)):
+        yield ['noeq', i]
+
+
+def run_noeq(case):
+    _, i = case
+    pre = NOEQ_PREFIX[i]
+    fails, oc, n = [], {}, 0
+    for L in range(0, 4):
+        for rest in itertools.product(NOEQ_CHARS, repeat=L):
+            text = pre + ''.join(rest)
+            if text.lstrip().startswith('=') or text.lstrip().startswith('{'):
+                continue
+            st, b = parse(text)
+            n += 1
+            oc[st] = oc.get(st, 0) + 1
+            lone = '#' in pre and ''.join(rest).strip() == ''       # white space around the literal is insignificant
+            if st.startswith('ESC'):
+                fails.append(Fail('escape', got=st, exp='FormulaError or a formula', text=text, src='noeq', feat='noeq'))
+            elif st == 'VALID' and not lone:
+                fails.append(Fail('accepted-invalid', got=b[-1].get_expr, exp='rejected (no leading =)', text=text, src='noeq', feat='noeq'))
+    return result(n, list(oc), fails[:50])
+
+
+# ---- a defined name spelled like a function that the same formula calls: both orders, same verdict
+CLASH = [('SUM(1)', 'SUM'), ('{1}', 'ARRAY'), ('{1,2}', 'ARRAYROW'), ('F(1)', 'F'), ('PI()', 'PI'), ('IF(TRUE,1,2)', 'IF'), ('SUM(SUM(1))', 'SUM'), ('NA()', 'NA'),
+         ('F(F(1),2)', 'F'), ('-SUM(1)', 'SUM')]
+
+
+def clash_cases(tier):
+    for i in range(len(CLASH)):
+        yield ['clash', i]
+
+
+def run_clash(case):
+    _, i = case
+    install_probe()
+    call, name = CLASH[i]
+    fails, oc, n = [], {}, 0
+    for tpl in ('%s+%s', '%s&%s', 'F(%s,%s)', '{1}+%s*%s', 'IF(%s=1,%s,0)', '(%s)-(%s)', '%s %s'):
+        verdicts = {}
+        for order in ((call, name), (name, call)):
+            text = '=' + tpl % order
+            st, b = parse(text)
+            n += 1
+            oc[st] = oc.get(st, 0) + 1
+            verdicts[order] = st
+            if st.startswith('ESC'):
+                fails.append(Fail('escape', got=st, exp='FormulaError or a formula', text=text, src='clash', feat=name))
+        if tpl != '%s %s' and len(set(verdicts.values())) > 1:
+            fails.append(Fail('order-dependent-verdict', got=str(sorted(verdicts.values())), exp='same verdict in both orders', text='=' + tpl % (call, name), src='clash', feat=name))
+    return result(n, list(oc), fails)
+
+
 def run_case(case):
-    return {'soup': run_soup, 'raw': run_raw, 'edit': run_edit, 'num': run_num, 'juxta': run_juxta, 'special': run_special}[case[0]](case)
+    return {'soup': run_soup, 'raw': run_raw, 'edit': run_edit, 'num': run_num, 'juxta': run_juxta, 'special': run_special,
+            'colon': run_colon, 'noeq': run_noeq, 'clash': run_clash}[case[0]](case)
 
 
 def run(ctx):
@@ -357,4 +453,7 @@ def run(ctx):
     ctx.explore(run_case, numeral_cases(ctx.tier), chunksize=2, label='numeral_chunks')
     ctx.explore(run_case, juxta_cases(ctx.tier), chunksize=1, label='juxtaposed_operands')
     ctx.explore(run_case, special_cases(ctx.tier), chunksize=1, label='special_reference_and_error_tokens')
+    ctx.explore(run_case, colon_cases(ctx.tier), chunksize=2, label='range_operator_as_a_token')
+    ctx.explore(run_case, noeq_cases(ctx.tier), chunksize=1, label='text_without_leading_equal_sign')
+    ctx.explore(run_case, clash_cases(ctx.tier), chunksize=1, label='names_spelled_like_called_functions')
     return {'strings_parsed': ctx.transitions}
